@@ -555,6 +555,7 @@ def run(chk):
     # ---------------- (3) file-system / configuration edges, the send race
     fs_edges(chk, sm, fail, quick)
     send_race(chk, sm, fail, quick)
+    shared_graphs(chk, sm, fail, quick)
 
     for s, n in sorted(by_site.items()):
         chk.count(f'site {s}', n)
@@ -720,6 +721,66 @@ def send_race(chk, sm, fail, quick):
     chk.sample({'case': 'send race', 'runs': n, 'panicked_or_hung': hits})
     if hits == 0:
         chk.notes.append(f'the collector send race did not reproduce in {n} runs (schedule dependent)')
+
+
+def shared_graphs(chk, sm, fail, quick):
+    """valid programs whose type graph has heavy sharing (ladders of diamonds, full layers, long chains, a cycle with a tail):
+    the number of PATHS is exponential in the depth, the number of items is small, so a run must end at once;
+    a dependency walk that enumerates paths (or loops on a cycle) shows up as a timeout = the property's "spins"."""
+    def ladder(n, fan=2):
+        return ''.join('#[typeshare]\npub struct L%02d { %s }\n' % (i, ', '.join(f'pub f{k}: L{i + 1:02d}' for k in range(fan))) for i in range(n)) + \
+            f'#[typeshare]\npub struct L{n:02d} {{ pub x: u8 }}\n'
+
+    def layers(depth, width):
+        src = ''
+        for d in range(depth):
+            for w in range(width):
+                body = ', '.join(f'pub f{k}: N{d + 1}x{k}' for k in range(width)) if d + 1 < depth else 'pub x: u8'
+                src += f'#[typeshare]\npub struct N{d}x{w} {{ {body} }}\n'
+        return src
+
+    def mixed(n):
+        src = ''
+        for i in range(n):
+            nxt = f'M{i + 1:02d}'
+            src += ['#[typeshare]\npub struct M%02d { pub a: Vec<%s>, pub b: Option<%s> }\n', '#[typeshare]\npub type M%02d = HashMap<String, Vec<%s>>;\n// %s\n',
+                    '#[typeshare]\n#[serde(tag = "t", content = "c")]\npub enum M%02d { A(%s), B { x: %s } }\n'][i % 3] % (i, nxt, nxt)
+        return src + f'#[typeshare]\npub struct M{n:02d} {{ pub x: u8 }}\n'
+
+    def cycle_tail(n):
+        return ladder(n) .replace(f'pub struct L{n:02d} {{ pub x: u8 }}', f'pub struct L{n:02d} {{ pub back: Option<Box<L00>>, pub t: Tail }}') + '#[typeshare]\npub struct Tail { pub x: u8 }\n'
+    shapes = [('ladder of 40 diamonds', ladder(40)), ('ladder of 24, fan 3', ladder(24, 3)), ('6 full layers of width 6', layers(6, 6)),
+              ('mixed containers/aliases/enums chain of 36', mixed(36)), ('ladder of 30 closed into a cycle, with a tail', cycle_tail(30))]
+    if not quick:
+        shapes += [('ladder of 60 diamonds', ladder(60)), ('10 full layers of width 5', layers(10, 5)), ('chain of 90', mixed(90))]
+    jobs, meta = [], []
+    for name, src in shapes:
+        for lk in (('typescript', 'go', 'swift') if quick else ('typescript', 'kotlin', 'swift', 'scala', 'go', 'python')):
+            _, l, ext, extra, _ = LANG[lk]
+            for multi in (False, True):
+                files = {'tree/mycrate/src/lib.rs': src}
+                args = ['--lang', l] + (['-d', '{d}/out'] if multi else ['-o', '{d}/out.' + ext]) + extra + ['{d}/tree']
+                jobs.append({'files': files, 'args': args, 'full': True})
+                meta.append((name, lk, multi, src))
+    with concurrent.futures.ThreadPoolExecutor(max_workers=vf.NPROC) as ex:
+        outs = list(ex.map(run_cli, jobs))
+    for (name, lk, multi, src), o in zip(meta, outs):
+        chk.evaluations += 1
+        chk.count('cli_shared_graph_runs')
+        chk.nontrivial.add(('graph', name, lk, multi))
+        ob = observe(o, sm)
+        payload = {'stage': 'binary, valid program with a heavily shared type graph', 'case': name, 'lang': lk, 'multi_file': multi, 'source': src,
+                   'args': jobs[0]['args'], 'observed': ob, 'wall_s': o['wall']}
+        if ob['cat'] == 'ok' and o['wall'] < 5:
+            chk.count('cli_shared_graph_ok')
+        elif ob['cat'] == 'hang' or o['wall'] >= 5:
+            chk.violation(f'graph-{name}-{lk}-{int(multi)}', payload, f'{name} ({lk}): a valid program of {src.count("#[typeshare]")} items does not finish ({o["wall"]} s, exit {ob["rc"]}): the tool spins')
+        elif good_cli(ob):
+            chk.count('cli_shared_graph_' + ob['cat'])
+        else:
+            fid = stderr_finding_id(ob['site']) if ob['site'] else None
+            fail(f'graph-{name}-{lk}-{int(multi)}', payload, f'{name}: {ob["cat"]} at {ob["site"]} (exit {ob["rc"]})', fid)
+    chk.sample({'case': 'shared type graphs', 'shapes': [n for n, _ in shapes], 'runs': len(jobs)})
 
 
 def replay(chk, path):
